@@ -1,4 +1,4 @@
-import PieModel.Build.Pie
+import PieModel.Lib.FileRes
 namespace PieModel
 theorem C13_placeholder : True := trivial
 end PieModel
